@@ -428,6 +428,8 @@ def run(tier, seed):
             continue
         seen.add(sig)
         final.append((what, robj, sig))
+    final = explain(final)
+    seen = set(sg for _, _, sg in final)
     c.cov["roots"] = sorted(roots)
     c.cov["per_profile"] = per
     c.cov["signatures"] = sorted(seen)
@@ -437,6 +439,101 @@ def run(tier, seed):
                             "incompleteness witness (reference half kernel-checked, model half executable); tie: three-way comparison of outcome sets "
                             "impl DFS / model kernel enumeration / reference semantics on small programs")
     return report(c, results, final, ok_build, ok_audit, "ShuttleProofs.C02", "ShuttleProofs.C02Audit")
+
+
+
+# ---------------------------------------------------------------- cause confirmation ("explanation check")
+CAUSES = [("chan-endpoint-drop", {"drop_tx", "drop_rx"}, True),
+          ("once-is_completed", {"is_completed"}, False),
+          ("sem-available_permits", {"avail"}, False),
+          ("barrier-blocking-wait", {"bwait"}, False)]
+CHAN_OPS = {"send", "try_send", "recv", "try_recv", "drop_tx", "drop_rx"}
+
+
+def with_yields(pl, kinds, at_task_end):
+    """insert a `yield` (a scheduling point) before every op of `kinds` (and, for channel programs, at the end
+    of every task that uses channel ops: its endpoints are dropped there). Returns (program, per-task list of
+    inserted positions in NEW numbering) or None when the program has `if … skip` lines (offsets would break)."""
+    if any(l.startswith("  if ") for l in pl):
+        return None
+    out, ins, cur, pc = [], {}, None, 0
+    has_chan = any(l.split()[:1] == ["obj"] and len(l.split()) > 2 and l.split()[2] == "chan" for l in pl)
+    for l in pl:
+        t = l.split()
+        if l.startswith("task "):
+            cur, pc = int(t[1]), 0
+            ins[cur] = []
+            out.append(l)
+        elif l.startswith("  ") and cur is not None:
+            if t[0] in kinds:
+                out.append("  yield"); ins[cur].append(pc); pc += 1
+            out.append(l); pc += 1
+        elif l.strip() == "end" and cur is not None:
+            if at_task_end and has_chan:
+                out.append("  yield"); ins[cur].append(pc); pc += 1
+            out.append(l); cur = None
+        else:
+            out.append(l)
+    return out, ins
+
+
+def strip_inserted(outcome, ins):
+    """rewrite an outcome of the yield-augmented program to the numbering of the original one"""
+    body, _, term = outcome.rpartition(";E:")
+    tasks = []
+    for part in body.split(";"):
+        if ":" not in part:
+            tasks.append(part); continue
+        k, _, rest = part.partition(":")
+        items = []
+        for it in (rest.split(",") if rest else []):
+            pc, _, res = it.partition("=")
+            pc = int(pc)
+            if pc in ins.get(int(k), []):
+                continue
+            items.append(f"{pc - sum(1 for x in ins.get(int(k), []) if x < pc)}={res}")
+        tasks.append(f"{k}:" + ",".join(items))
+    return ";".join(tasks) + ";E:" + term
+
+
+def explain(final):
+    """for every missing-outcome violation: does a scheduling point inserted before the suspected operations make
+    the runtime produce the missing outcome? then the cause is exactly that missing scheduling point"""
+    out = []
+    for what, robj, sig in final:
+        if not sig.startswith("C02:missing-outcome:") or "missing_outcome" not in robj:
+            out.append((what, robj, sig)); continue
+        pl = robj["program"]
+        ops = set(l.split()[0] for l in pl if l.startswith("  "))
+        cause = None
+        for name, kinds, at_end in CAUSES:
+            if not (ops & kinds) and not (at_end and ops & CHAN_OPS):
+                continue
+            v = with_yields(pl, kinds, at_end)
+            if v is None:
+                continue
+            vp, ins = v
+            vp = [l + "_y" if l.startswith("=== ") else l for l in vp]
+            ev = evaluate("c02explain", normalise(vp), jobs=1)
+            for n in ev["names"]:
+                got = set(strip_inserted(o, ins) for o in ev["impl"][n]["outcomes"])
+                if ev["impl"][n]["complete"] and robj["missing_outcome"] in got:
+                    cause = name
+            if cause:
+                break
+        if cause:
+            robj = dict(robj, confirmed_cause=f"inserting a scheduling point before {cause} makes the runtime produce the missing outcome")
+            out.append((what + f" — cause confirmed: no scheduling point before {cause}", robj, "C02:missing-switch-before:" + cause))
+        else:
+            out.append((what, robj, sig))
+    seen, res = set(), []
+    for w, r, sg in out:
+        if sg.startswith("C02:unsound-outcome:") and set(sg.split(":")[2].split(",")) <= CHAN_OPS and "try_send" in sg:
+            sg = "C02:unsound-outcome:chan-reserved-slot"
+        if sg in seen:
+            continue
+        seen.add(sg); res.append((w, r, sg))
+    return res
 
 
 def replay(path):
